@@ -842,6 +842,74 @@ fn search_term(t: &T, seed: u64, per: usize, st: &mut Stats) {
     }
 }
 
+/// Powers through the algebra solver (compile/algebra.rs Expr::pow, 19b72c7): `°(ⁿk …)` and `⍜(ⁿk …)` for
+/// small and huge whole k on non-negative inputs; results are compared up to rounding (roots are not exact),
+/// and every program must finish quickly (inverting a power must not take time proportional to k).
+fn search_power(st: &mut Stats) -> usize {
+    let small = ["ⁿ2", "ⁿ3", "ⁿ4", "ⁿ10", "ⁿ2×2", "ⁿ3×2", "ⁿ10×2", "+1ⁿ2×3", "ⁿ2+1", "×2ⁿ2"];
+    let huge = ["ⁿ1024×1", "ⁿ1025×1", "ⁿ5000×1", "ⁿ1e6×1", "ⁿ1e9×1", "ⁿ1e9", "ⁿ1e15"];
+    let mut n = 0;
+    let close = |a: &[Value], b: &[Value]| {
+        a.len() == b.len()
+            && a.iter().zip(b).all(|(x, y)| {
+                x.shape == y.shape
+                    && {
+                        let fx: Vec<f64> = match x { Value::Num(a) => a.elements().copied().collect(), Value::Byte(a) => a.elements().map(|b| *b as f64).collect(), _ => return false };
+                        let fy: Vec<f64> = match y { Value::Num(a) => a.elements().copied().collect(), Value::Byte(a) => a.elements().map(|b| *b as f64).collect(), _ => return false };
+                        fx.iter().zip(&fy).all(|(p, q)| (p - q).abs() <= 1e-9 * (1.0 + p.abs().max(q.abs())))
+                    }
+            })
+    };
+    for (fs, xs) in small.iter().map(|f| (*f, "[0 1 2 3]")).chain(huge.iter().map(|f| (*f, "[0 1]"))) {
+        n += 1;
+        let (fsrc, xsrc) = (fs.to_string(), xs.to_string());
+        let name = format!("directed:power:{fs}");
+        let (tx, rx) = std::sync::mpsc::channel();
+        let name2 = name.clone();
+        std::thread::Builder::new()
+            .stack_size(64 << 20)
+            .spawn(move || {
+                let mut out: Vec<(String, String, Vec<Value>, String)> = Vec::new();
+                let mut cnt = [0usize; 3];
+                if let Ok(x) = run_uiua(&xsrc) {
+                    if let Ok(y) = run_uiua_with(&format!("({fsrc})"), &x) {
+                        cnt[0] += 1;
+                        for (law, prog, arg, want) in [
+                            ("left", format!("°({fsrc})"), &y, &x),
+                            ("right", format!("({fsrc}) °({fsrc})"), &y, &y),
+                            ("get-put", format!("⍜({fsrc})(×1)"), &x, &x),
+                        ] {
+                            match run_uiua_with(&prog, arg) {
+                                Ok(got) => {
+                                    cnt[1] += 1;
+                                    if !close(&got, want) {
+                                        out.push((law.to_string(), prog.clone(), x.clone(), format!("got {} but expected {}", show(&got), show(want))));
+                                    }
+                                }
+                                Err(e) => out.push((law.to_string(), prog.clone(), x.clone(), format!("fails: {e}"))),
+                            }
+                        }
+                    }
+                }
+                let _ = tx.send((out, cnt));
+                let _ = name2;
+            })
+            .unwrap();
+        match rx.recv_timeout(std::time::Duration::from_secs(30)) {
+            Ok((out, cnt)) => {
+                st.evals += 1;
+                st.in_dom += cnt[0];
+                st.left_checked += cnt[1];
+                for (law, prog, x, detail) in out {
+                    viol(&law, &name, &prog, &x, &detail);
+                }
+            }
+            Err(_) => viol("hang", &name, fs, &[], "compiling or running the inverse of the power did not finish within 30 s"),
+        }
+    }
+    n
+}
+
 /// Regression inputs of repaired defects that are not catalogue terms
 fn search_regress(st: &mut Stats) -> usize {
     let mut n = 0;
@@ -1197,6 +1265,8 @@ fn main() {
             search_anti(r.next(), (n / 40).max(20), &mut st);
             let directed = search_directed(&mut st);
             println!("{{\"directed\":true,\"programs\":{directed}}}");
+            let powers = search_power(&mut st);
+            println!("{{\"power\":true,\"programs\":{powers}}}");
             let regress = search_regress(&mut st);
             println!("{{\"regress\":true,\"programs\":{regress}}}");
             let (ran, noinv, classes) = search_arith(&mut r, (n / 12).max(300), &mut st);
